@@ -2,6 +2,7 @@
 package gen
 
 import (
+	"unicode/utf8"
 	"math"
 	"strings"
 
@@ -278,7 +279,7 @@ func LiteralOK(v lang.Value) bool {
 	case lang.KFloat:
 		return !math.IsNaN(v.F) && !math.IsInf(v.F, 0)
 	case lang.KString:
-		return !strings.ContainsRune(v.S, 0)
+		return !strings.ContainsRune(v.S, 0) && utf8.ValidString(v.S)
 	case lang.KRegexp:
 		_, body := lang.SplitRegexp(v.S)
 		return body != "" && !strings.ContainsRune(v.S, 0) && !strings.HasPrefix(body, "(?")
